@@ -88,7 +88,7 @@ pub fn run(op: &str, a: &Args) -> Option<Out> {
             with_n!(sc(a, 2) as usize, [1, 2, 3, 4, 8, 16, 32, 33, 40], uint_parse, op, a)
         }
         "uint.to_string_radix" | "uint.radix_roundtrip" | "uint.radix_roundtrip.num" => {
-            with_n!(ar(a, 0).len(), [1, 2, 3, 4, 8, 16, 32, 33, 40], uint_fmt, op, a)
+            with_n!(ar(a, 0).len(), [1, 2, 3, 4, 8, 16, 32, 33, 40, 63], uint_fmt, op, a)
         }
         "boxed.from_str_radix" => match BoxedUint::from_str_radix_vartime(&st(a, 0), radix(a, 1)) {
             Ok(x) => val1(bv(&x)),
